@@ -22,5 +22,36 @@ func allProps() []*propInfo {
 				{ID: "C01.5", Doc: "[who] lease bookkeeping columns have one writer", Run: ruleC01_5},
 			},
 		},
+		{
+			ID: "C02",
+			Explanation: "Static necessary conditions of 'only rightful, intact messages; subscriptions independent': " +
+				"C02.1 the pull selection is scoped to the verified subscription's outstanding due rows and the response is bounded by the requested maximum (LIMIT from MaxMessages or loop exit at MaxMessages); " +
+				"C02.2 every update/delete of delivery rows in the module is addressed by delivery id or scoped by subscription_id = <subscription resolved in the same operation> on every path; " +
+				"C02.3 message rows are immutable (no generated setter for content columns, no update statement on messages, created only by publish, deleted only by the completed-messages prune job); " +
+				"C02.4 content provenance (K9 data dependence): request field -> action parameter -> column -> pull result -> gRPC field, each depending on its own source field and on no other content field; MessageIds[i] is the id of the i-th stored message. " +
+				"NOT decided: JSON value equality through jsonb/text storage, duplicates within one response (primary-key fact), histories.",
+			Assumptions: []string{k1Assumption, "protobuf/ent field names correspond one-to-one as in the generated code"},
+			Rules: []ruleFn{
+				{ID: "C02.1", Doc: "[atoms] pull scoping and response bound", Run: ruleC02_1},
+				{ID: "C02.2", Doc: "[atoms] no unscoped delivery mutation", Run: ruleC02_2},
+				{ID: "C02.3", Doc: "[who] messages are immutable", Run: ruleC02_3},
+				{ID: "C02.4", Doc: "[dep] content provenance", Run: ruleC02_4},
+			},
+		},
+		{
+			ID: "C03",
+			Explanation: "Static necessary conditions of 'ack is final and idempotent': " +
+				"C03.1 deliveries.completed_at is cleared only by the two seek actions; C03.2 the pull selection excludes completed rows on every path; " +
+				"C03.3 delivery rows are created only by deliverToSubscription, called only from publish and dead-letter forwarding (no path re-enqueues an acked message); " +
+				"C03.4 ack/nack/modify-deadline return only errors that originate from storage/helper calls (no self-made error for unknown, stale or foreign ids) and their bulk statements are addressed by id IN <ids>. " +
+				"Deliberately not demanded: the completed_at IS NULL guards in nack/modify-deadline (dropping them does not resurrect an acked message; the guard that matters is C06.5). NOT decided: the history-level claim.",
+			Assumptions: []string{k1Assumption},
+			Rules: []ruleFn{
+				{ID: "C03.1", Doc: "[who] completion is undone only by seek", Run: ruleC03_1},
+				{ID: "C03.2", Doc: "[atoms] pull excludes completed rows", Run: ruleC03_2},
+				{ID: "C03.3", Doc: "[who] delivery rows are created only on publish/dead-letter", Run: ruleC03_3},
+				{ID: "C03.4", Doc: "[K5] idempotent ack/nack/modify-deadline", Run: ruleC03_4},
+			},
+		},
 	}
 }
